@@ -4,3 +4,14 @@ claimed["C12"] = dict(engine="engine-S", category="model_checking",
   text="every execution of each command's reader/worker/writer pipeline on 2-3 record inputs with 1-3 workers is enumerated (all interleavings and all map iteration orders, unbounded where the space is small, else <=2 preemptions and <=2 deviating maps) and must produce the single observation of the canonical schedule; the result is then bound to the real binary for --threads 1..16 x GOMAXPROCS 1,4,16",
   note="trusted: the scheduler shim's model of channels/WaitGroup/select; goroutine-local determinism between synchronisation points (the data-race clause of C12 rests on a complementary free-running -race pass, which is not model checking); biogo/hts and the standard library uninstrumented",
   design_ref="DESIGN.md 2.2, 3 (C12)")
+
+claimed["C17"] = dict(engine="engine-I", category="model_checking",
+  technique="complete enumeration of the finite domain against an independent reference model",
+  text="the domain is finite and enumerated outright: all 3375 IUPAC codons through the codon dictionary and strict/non-strict Translate, all 4096 unambiguous codon pairs, all 32 accepted characters through text and encoded complement, encode/decode (both gap modes) and the set semantics of the bit encoding, all 33824 strings of length <=3 through the three reverse-complement forms; the 3375 codons additionally through the real `gofasta variants` binary",
+  note="trusted: the reference genetic code (NCBI table 1 as the 64-letter TCAG string) and IUPAC base-set definitions in harness/ref_iupac.go",
+  design_ref="DESIGN.md 3 (C17)")
+claimed["C03"] = dict(engine="engine-I", category="model_checking",
+  technique="bounded-exhaustive input enumeration on the real entry point vs. set-disjointness reference model",
+  text="every (reference symbol pair, query symbol pair) of the 17-symbol alphabet in a width-2 alignment, both gap modes, four letter-case layouts; single differences at every position of widths 1..12 and 99..101; every sequence of 1..4 records from a menu; (thorough) all width-3 pairs over ACRN-?; a 1-in-7 slice of the table replayed through the real binary",
+  note="trusted: IUPAC set model; small-scope argument: getSNPs has no width- or position-dependent branch other than the loop itself; schedule independence delegated to C12",
+  design_ref="DESIGN.md 3 (C03)")
